@@ -1,6 +1,15 @@
 """C13 - see DESIGN.md section 5/C13.  Bounded stand-in (bounded/C13.py) of the property's
-contract on the real code; labelled bounded, never counted as proved."""
+contract on the real code; labelled bounded, never counted as proved.
+
+Deductive part (contracts/model_reports.py): Model.get_derived_parameters /
+get_derived_variables are proved to partition the derived quantities by the cache's
+classification: a derived quantity is reported as a derived parameter exactly when the
+cache holds a value for it among all_parameter_values, as a derived variable otherwise,
+each with its own record.  That the cache classifies correctly (static/dynamic split of
+_create_cache) is bounded only."""
 from props._runner import run
 
 if __name__ == "__main__":
-    run("C13", "exploration", notes="C13: run-time contract on the real code over an enumerated small scope (bounded stand-in)")
+    run("C13", "exploration", files=["model_reports.py"],
+        notes="C13: run-time contract on the real code over an enumerated small scope (bounded stand-in, deciding); "
+              "derived-parameter / derived-variable reports proved to be the partition by the cache's classification")
